@@ -94,7 +94,7 @@ pub fn automaton(r: &RunResult, cfg: &Config) -> Result<Obs, (String, String)> {
             Rec::Probe { panicked } => {
                 o.probe_panicked = *panicked;
                 if !*panicked {
-                    return Err(("use-after-error-does-not-panic".into(), "write() after a returned error did not panic".into()));
+                    return Err(("use-after-error-does-not-panic".into(), "write(b\"\") / write(data) / end() after a returned error did not panic (probes run in that order)".into()));
                 }
             }
             Rec::DocEnd { .. } => {}
